@@ -6,6 +6,7 @@ package main
 import (
 	"fmt"
 	"go/types"
+	"regexp"
 	"os"
 	"path/filepath"
 	"sort"
@@ -31,6 +32,7 @@ type Contract struct {
 	Assigns   []string
 	HasAssign bool
 	Loops     map[int][]*Clause
+	Covers    []*Clause // exit-state conditions that must be satisfiable (vacuity guards written by the contract author)
 	Inline    bool
 	DynInline bool // inline at call sites where an interface argument has a statically known dynamic type
 	NoInline  bool
@@ -54,6 +56,7 @@ type SpecFunc struct {
 	Ret    string
 	Body   Expr // nil = uninterpreted
 	Opaque bool // uninterpreted symbol + definitional axiom (usable in triggers)
+	BodySrc string
 	File   string
 }
 
@@ -86,16 +89,17 @@ type SpecDB struct {
 	FilePkg   map[string]string            // contract file -> package path
 	Files     []string
 	Witness   map[string][]string
+	FileUses  map[string][]string // lemmas/definitions of other files visible to the lemma proofs of a file
 }
 
 func NewSpecDB() *SpecDB {
 	return &SpecDB{Contracts: map[string]*Contract{}, Funcs: map[string]*SpecFunc{}, Ghosts: map[string]*GhostVar{},
-		Imports: map[string]map[string]string{}, FilePkg: map[string]string{}, Witness: map[string][]string{}}
+		Imports: map[string]map[string]string{}, FilePkg: map[string]string{}, Witness: map[string][]string{}, FileUses: map[string][]string{}}
 }
 
 var clauseKeywords = map[string]bool{"import": true, "ghost": true, "spec": true, "def": true, "axiom": true, "lemma": true,
-	"func": true, "extern": true, "requires": true, "ensures": true, "assigns": true, "loop": true, "inline": true,
-	"noinline": true, "dyninline": true, "trusted": true, "maypanic": true, "params": true, "results": true, "havoc": true, "det": true, "uses": true}
+	"func": true, "extern": true, "requires": true, "ensures": true, "cover": true, "assigns": true, "loop": true, "inline": true,
+	"noinline": true, "dyninline": true, "trusted": true, "maypanic": true, "params": true, "results": true, "havoc": true, "det": true, "uses": true, "lemmauses": true}
 
 type rawLine struct {
 	text string
@@ -245,6 +249,7 @@ func (db *SpecDB) stmt(path, pkgPath string, st rawLine, cur **Contract) error {
 				return err
 			}
 			sf.Body = e
+			sf.BodySrc = after[k+2:]
 		} else {
 			sf.Ret = after
 		}
@@ -349,7 +354,7 @@ func (db *SpecDB) stmt(path, pkgPath string, st rawLine, cur **Contract) error {
 			db.Contracts[key] = c
 		}
 		*cur = c
-	case "requires", "ensures":
+	case "requires", "ensures", "cover":
 		if *cur == nil {
 			return fmt.Errorf("%s outside func", kw)
 		}
@@ -359,6 +364,8 @@ func (db *SpecDB) stmt(path, pkgPath string, st rawLine, cur **Contract) error {
 		}
 		if kw == "requires" {
 			(*cur).Requires = append((*cur).Requires, cl)
+		} else if kw == "cover" {
+			(*cur).Covers = append((*cur).Covers, cl)
 		} else {
 			(*cur).Ensures = append((*cur).Ensures, cl)
 		}
@@ -406,6 +413,8 @@ func (db *SpecDB) stmt(path, pkgPath string, st rawLine, cur **Contract) error {
 		(*cur).MayPanic = true
 	case "det":
 		(*cur).Det = true
+	case "lemmauses":
+		db.FileUses[path] = append(db.FileUses[path], strings.Fields(strings.ReplaceAll(rest, ",", " "))...)
 	case "uses":
 		(*cur).Uses = append((*cur).Uses, strings.Fields(strings.ReplaceAll(rest, ",", " "))...)
 	case "params":
@@ -467,4 +476,19 @@ func (db *SpecDB) LoadAll(repo, specDir string, pkgOfDir func(dir string) string
 		}
 	}
 	return nil
+}
+
+var identRe = regexp.MustCompile(`[A-Za-z_][A-Za-z0-9_]*`)
+
+// GhostRefs: ghost variables a contract text refers to, directly or through spec-function bodies.
+func (db *SpecDB) GhostRefs(src string, seen map[string]bool, out map[string]bool) {
+	for _, id := range identRe.FindAllString(src, -1) {
+		if _, ok := db.Ghosts[id]; ok {
+			out[id] = true
+		}
+		if sf, ok := db.Funcs[id]; ok && sf.BodySrc != "" && !seen[id] {
+			seen[id] = true
+			db.GhostRefs(sf.BodySrc, seen, out)
+		}
+	}
 }
